@@ -288,9 +288,27 @@ enum Family {
     Repeat,
     Concurrent,
     Overflow,
+    /// a plain macro started by something that is not a physical press (release of a key, virtual
+    /// key tapped from outside, tap-hold / tap-dance timeout) or by a press, at some offset after a
+    /// cancelling macro completed / was cut by release / was cut by a press, with typing meanwhile
+    Delayed,
 }
 
+#[derive(Clone, Copy, Debug, PartialEq, Eq)]
+enum Trig {
+    OnRelease,
+    FakeKeyTap,
+    TapHoldTimeout,
+    TapDanceTimeout,
+    Press,
+}
+const TRIGS: [Trig; 5] = [Trig::OnRelease, Trig::FakeKeyTap, Trig::TapHoldTimeout, Trig::TapDanceTimeout, Trig::Press];
+const TRIG_T: u32 = 40;
+
 fn family_of(idx: u64) -> Family {
+    if idx % 20 == 2 {
+        return Family::Delayed;
+    }
     match idx % 10 {
         0 | 1 | 2 => Family::Single,
         3 | 4 | 5 => Family::Cancel,
@@ -304,6 +322,7 @@ struct CaseCfg {
     family: Family,
     macros: Vec<Macro>,
     text: String,
+    trig: Trig,
 }
 
 fn make_cfg(ctx: &Ctx, idx: u64) -> CaseCfg {
@@ -311,6 +330,7 @@ fn make_cfg(ctx: &Ctx, idx: u64) -> CaseCfg {
     let family = family_of(idx);
     let n = match family {
         Family::Single | Family::Cancel | Family::Repeat => 1,
+        Family::Delayed => 2,
         Family::Concurrent => 2 + rng.usize(3),
         Family::Overflow => 5 + rng.usize(4),
     };
@@ -346,20 +366,33 @@ fn make_cfg(ctx: &Ctx, idx: u64) -> CaseCfg {
                 }
             }
             Family::Overflow => VARIANTS[0],
+            Family::Delayed => {
+                if i == 0 {
+                    // the macro whose cancellation precedes: both-cancel variants twice as often
+                    let pool = [VARIANTS[6], VARIANTS[7], VARIANTS[6], VARIANTS[2], VARIANTS[4], VARIANTS[3], VARIANTS[0]];
+                    pool[((idx / 20) as usize) % pool.len()]
+                } else {
+                    VARIANTS[0]
+                }
+            }
         };
         // only macro 0 carries a custom item: concurrent custom items share one delivery slot per
         // tick, which the guide documents as needing delays
-        let uni = if i == 0 && rng.chance(1, 2) { Some(UNIS[rng.usize(UNIS.len())]) } else { None };
+        let uni = if i == 0 && family != Family::Delayed && rng.chance(1, 2) { Some(UNIS[rng.usize(UNIS.len())]) } else { None };
         let budget = match family {
             Family::Single => 4 + rng.usize(26) as i32,
             Family::Cancel => 3 + rng.usize(16) as i32,
             Family::Repeat => 2 + rng.usize(12) as i32,
             Family::Concurrent => 6 + rng.usize(16) as i32,
             Family::Overflow => 10 + rng.usize(10) as i32,
+            Family::Delayed => 4 + rng.usize(10) as i32,
         };
         let delays: &'static [u32] = match family {
             Family::Single => &[1, 1, 2, 3, 5, 10, 25, 60],
             Family::Overflow => &[1, 2, 3, 5, 8],
+            // the cancelling macro is long (its nominal duration is the cancel-on-press window)
+            Family::Delayed if i == 0 => &[20, 50, 100, 200],
+            Family::Delayed => &[1, 2, 5, 12, 30],
             _ => &[1, 1, 2, 3, 5, 12],
         };
         let mut body;
@@ -370,7 +403,11 @@ fn make_cfg(ctx: &Ctx, idx: u64) -> CaseCfg {
             body = g.items(0, n_items);
             let e = expand(&body);
             tries += 1;
-            let min_steps = if family == Family::Overflow { 10 } else { 1 };
+            let min_steps = match family {
+                Family::Overflow => 10,
+                Family::Delayed => 4,
+                _ => 1,
+            };
             let key_steps = |e: &Expansion| e.steps.iter().filter(|s| s.kind != SK::U).count();
             if key_steps(&e) >= min_steps || tries > 20 {
                 if key_steps(&e) < min_steps {
@@ -404,8 +441,22 @@ fn make_cfg(ctx: &Ctx, idx: u64) -> CaseCfg {
         src.push(t.to_string());
         lay.push(t.to_string());
     }
-    let text = format!("(defsrc {})\n(deflayer l0\n  {}\n)\n", src.join(" "), lay.join("\n  "));
-    CaseCfg { family, macros, text }
+    let mut text = format!("(defsrc {})\n(deflayer l0\n  {}\n)\n", src.join(" "), lay.join("\n  "));
+    let trig = TRIGS[((idx / 20 / 7) as usize) % TRIGS.len()];
+    if family == Family::Delayed {
+        // macro 1 is the plain macro under test; how it gets started depends on the trigger kind
+        let plain = format!("(macro {})", render_items(&macros[1].body));
+        let cell = match trig {
+            Trig::OnRelease => "(on-release tap-vkey vm)".to_string(),
+            Trig::FakeKeyTap => "XX".to_string(),
+            Trig::TapHoldTimeout => format!("(tap-hold {TRIG_T} {TRIG_T} XX {plain})"),
+            Trig::TapDanceTimeout => format!("(tap-dance {TRIG_T} ({plain} XX))"),
+            Trig::Press => plain.clone(),
+        };
+        lay[1] = cell;
+        text = format!("(defvirtualkeys vm {plain})\n(defsrc {})\n(deflayer l0\n  {}\n)\n", src.join(" "), lay.join("\n  "));
+    }
+    CaseCfg { family, macros, text, trig }
 }
 
 // ------------------------------------------------------------------------------------------------
@@ -441,6 +492,11 @@ impl Drv {
     }
     fn now(&self) -> u64 {
         self.sim.now
+    }
+    /// tap a virtual key the way the TCP server does
+    fn fk_tap(&mut self, name: &str) {
+        self.sim.fakekey(name, 't');
+        self.hist.push(Ev::Fk(name.to_string(), 't'));
     }
 }
 
@@ -697,7 +753,10 @@ fn judge_macro(j: &mut Judge, d: &Drv, from: usize, start_tick: u64, m: &Macro, 
         return "evicted";
     }
     if is_cut && !ex.cut_ok {
-        let (class, what) = if r.tail == 0 && !r.open.is_empty() {
+        let (class, what) = if r.tail > 0 {
+            // a partial run followed by the clean-up of a cancellation nobody asked for
+            ("cancelled-without-cause".to_string(), format!("the macro was cut after {} of {} steps and its keys were released, although nothing that cancels it happened", r.k, exp_steps.len()))
+        } else if r.tail == 0 && !r.open.is_empty() {
             problem_or("stuck-key", format!("the macro stopped after {} of {} steps and left {} down", r.k, exp_steps.len(), r.open.join(",")))
         } else {
             problem_or("incomplete", format!("only {} of {} steps of a run were played although nothing cancelled it", r.k, exp_steps.len()))
@@ -1147,7 +1206,7 @@ fn scenario_concurrent_cancel(out: &mut CaseOut, cfg: &CaseCfg, rng: &mut Rng) {
         out.inc("configs_rejected");
         return;
     };
-    let cfg2 = CaseCfg { family: cfg.family, macros: vec![], text };
+    let cfg2 = CaseCfg { family: cfg.family, macros: vec![], text, trig: cfg.trig };
     let from = d.sim.trace.len();
     let start = d.now();
     let mut order: Vec<usize> = (0..n).collect();
@@ -1186,6 +1245,147 @@ fn scenario_concurrent_cancel(out: &mut CaseOut, cfg: &CaseCfg, rng: &mut Rng) {
         let r = judge_macro(&mut j, &d, from, start, m, &ex, false);
         out.inc(&format!("concurrent_cancel_{r}"));
     }
+}
+
+/// a plain macro started by a non-press trigger (or a press) some time after a cancelling macro
+/// completed / was cut by its release / was cut by another key's press; unrelated keys are typed
+/// while the plain macro runs. It must play its full expansion exactly once.
+fn scenario_delayed(out: &mut CaseOut, cfg: &CaseCfg, rng: &mut Rng) {
+    let a = &cfg.macros[0];
+    let p = &cfg.macros[1];
+    let Ok(mut d) = Drv::new(&cfg.text) else {
+        out.inc("configs_rejected");
+        return;
+    };
+    let x = osc(CANCEL_KEY);
+    let typed = typed_codes();
+    let dur = a.exp.steps.len() as u64 + a.exp.total_delay as u64 + 1;
+    if cfg.trig == Trig::OnRelease {
+        // the trigger key has to be down before anything else happens (its press must not be the
+        // press that cancels / disarms)
+        d.press(p.code);
+        d.tick(rng.range(2, 8));
+    }
+    let av = a.variant;
+    let mut modes = vec!["control"];
+    if !av.repeat {
+        modes.push("completed");
+    }
+    if av.rc {
+        modes.push("cut-by-release");
+        modes.push("cut-by-release");
+    }
+    if av.cp {
+        modes.push("cut-by-press");
+    }
+    let mode = *rng.pick(&modes);
+    match mode {
+        "completed" => {
+            d.press(a.code);
+            if !av.rc && rng.coin() {
+                d.tick(rng.below(3));
+                d.release(a.code);
+                quiesce(&mut d, run_bound(a) + 40);
+            } else {
+                quiesce(&mut d, run_bound(a) + 40);
+                d.release(a.code);
+            }
+            d.tick(rng.below(20));
+        }
+        "cut-by-release" => {
+            d.press(a.code);
+            d.tick(rng.range(1, dur / 3 + 2));
+            d.release(a.code);
+        }
+        "cut-by-press" => {
+            d.press(a.code);
+            d.tick(rng.range(1, dur / 3 + 2));
+            d.press(x);
+            d.tick(rng.range(1, 4));
+            d.release(x);
+            if rng.coin() {
+                d.release(a.code);
+            }
+        }
+        _ => {}
+    }
+    // some offset later (inside or after the cancelled macro's nominal duration) the plain macro is triggered
+    d.tick(rng.range(1, dur / 2 + 4));
+    let from = d.sim.trace.len();
+    let start = d.now();
+    match cfg.trig {
+        Trig::OnRelease => d.release(p.code),
+        Trig::FakeKeyTap => d.fk_tap("vm"),
+        _ => d.press(p.code),
+    }
+    let lead = p.exp.steps.first().map(|s| s.min_gap as u64).unwrap_or(0);
+    let t0 = d.now();
+    while steps_seen(&d.sim, from, p) < 1 && d.now() - t0 < TRIG_T as u64 + lead + 30 {
+        d.tick(1);
+    }
+    // unrelated typing while it runs, the first press right away
+    let mut typed_down: Vec<u16> = vec![];
+    let k = *rng.pick(&typed);
+    typed_down.push(k);
+    d.press(k);
+    out.inc("typed_meanwhile");
+    let bound = run_bound(p) + TRIG_T as u64;
+    let t1 = d.now();
+    loop {
+        d.tick(1);
+        if rng.chance(1, 3) {
+            if !typed_down.is_empty() && rng.coin() {
+                let i = rng.usize(typed_down.len());
+                let k = typed_down.remove(i);
+                d.release(k);
+            } else {
+                let k = *rng.pick(&typed);
+                if !typed_down.contains(&k) {
+                    typed_down.push(k);
+                    d.press(k);
+                    out.inc("typed_meanwhile");
+                }
+            }
+        }
+        let done = d.now() - t1 >= 3 && d.sim.k.layout.b().active_sequences.is_empty();
+        if done || d.now() - t1 > bound {
+            break;
+        }
+    }
+    for k in typed_down.drain(..) {
+        d.release(k);
+    }
+    if !matches!(cfg.trig, Trig::OnRelease | Trig::FakeKeyTap) {
+        d.release(p.code);
+    }
+    if mode == "cut-by-press" || mode == "cut-by-release" {
+        // whatever is still held of the first macro's key
+        d.release(a.code);
+    }
+    let q = quiesce(&mut d, bound + run_bound(a) + 40);
+    let label = format!("plain macro started by {:?} after the {} macro on key 1: {mode}", cfg.trig, av.name);
+    if !q {
+        let obs = project(&d.sim, from, p, false);
+        let j = Judge { out, cfg, scenario: label };
+        let w = j.witness(&d, p, &obs, &p.exp.steps, json!({}));
+        out.violate("C08:never-finishes", "macros still running long after everything was released".to_string(), w);
+        return;
+    }
+    let ex = Expect { runs_exact: Some(1), min_runs: 1, cut_ok: false, cancel_at: None, released_at: None, with_uni: false };
+    let mut j = Judge { out, cfg, scenario: label };
+    let r = judge_macro(&mut j, &d, from, start, p, &ex, false);
+    out.inc(&format!("delayed_{r}"));
+    out.inc(&format!("delayed_trigger_{:?}", cfg.trig));
+    out.inc(&format!("delayed_after_{mode}"));
+    // nothing of the first macro may be left down either
+    let stuck: Vec<String> = d.sim.os.keys_down.iter().filter(|k| a.alphabet.contains(*k)).cloned().collect();
+    if !stuck.is_empty() {
+        let obs = project(&d.sim, 0, a, false);
+        let j = Judge { out, cfg, scenario: format!("first macro of: plain macro started by {:?}, {mode}", cfg.trig) };
+        let w = j.witness(&d, a, &obs, &a.exp.steps, json!({"still_down": stuck}));
+        out.violate("C08:stuck-key", format!("{}: {} still down at the end", av.name, stuck.join(",")), w);
+    }
+    out.tag(format!("delayed|{:?}|{}|{mode}|{r}", cfg.trig, av.name));
 }
 
 impl Check for C08Check {
@@ -1252,6 +1452,11 @@ impl Check for C08Check {
                 scenario_concurrent(&mut out, &cfg, &mut rng, true);
                 scenario_concurrent(&mut out, &cfg, &mut rng, true);
             }
+            Family::Delayed => {
+                for _ in 0..4 {
+                    scenario_delayed(&mut out, &cfg, &mut rng);
+                }
+            }
         }
         if idx % 400 < 10 && idx / 400 < 2 {
             let m = &cfg.macros[0];
@@ -1260,7 +1465,7 @@ impl Check for C08Check {
         out
     }
     fn rule(&self) -> String {
-        "case = one configuration with 1-8 macro keys whose bodies come from the harness's own macro grammar (keys, delays, modifier groups S-(…) incl. the 'S- (…)' spelling, output chords, nested lists to depth 3, at most one (unicode x) item; every macro has a private key alphabet, a key is never pressed while the same macro already holds it) rendered in one of the 8 macro variants. Families by case index: single (30%: 1-2 activations, held or tapped, with or without unrelated typing), cancel (30%: for EVERY step index i of the body a fresh run is cancelled after i steps - by releasing the key for release-cancel/repeat variants, by pressing another key for cancel-on-press variants), repeat (10%: held for a random time), concurrent (20%: 2-4 macros started 0-9 ms apart, plus one run where a release-cancel macro cancels all), overflow (10%: 5-8 macros started 0-3 ms apart). The projection of the OS stream onto each macro's alphabet must read as: complete runs of the independently expanded body, optionally one partial run followed by the release of exactly the keys it still held (only where a cancellation was issued), with strictly increasing ticks, at least the written delays, nothing regular later than 3 ticks after a cancellation, no run of a repeating macro starting later than 3 ticks after the key's release, nothing of the alphabet down at the end, finished within 2x(steps+delays)+100 ticks. Non-trivial = a scenario whose macro produced output; distinct = (family, variant, body shape, hold/tap/typing or cancel index or concurrency and outcome).".into()
+        "case = one configuration with 1-8 macro keys whose bodies come from the harness's own macro grammar (keys, delays, modifier groups S-(…) incl. the 'S- (…)' spelling, output chords, nested lists to depth 3, at most one (unicode x) item; every macro has a private key alphabet, a key is never pressed while the same macro already holds it) rendered in one of the 8 macro variants. Families by case index: single (25%: 1-2 activations, held or tapped, with or without unrelated typing), cancel (30%: for EVERY step index i of the body a fresh run is cancelled after i steps - by releasing the key for release-cancel/repeat variants, by pressing another key for cancel-on-press variants), repeat (10%: held for a random time), concurrent (20%: 2-4 macros started 0-9 ms apart, plus one run where a release-cancel macro cancels all), overflow (10%: 5-8 macros started 0-3 ms apart), delayed (5%, taken from single: a plain macro is started by the release of an (on-release tap-vkey) key, by a virtual key tapped through the TCP path, by a tap-hold or tap-dance timeout, or by a press, at a random offset after a cancelling macro on another key completed / was cut by its release / was cut by another key's press, or without it; unrelated keys are typed from the plain macro's first step on; it must play its full expansion exactly once). The projection of the OS stream onto each macro's alphabet must read as: complete runs of the independently expanded body, optionally one partial run followed by the release of exactly the keys it still held (only where a cancellation was issued), with strictly increasing ticks, at least the written delays, nothing regular later than 3 ticks after a cancellation, no run of a repeating macro starting later than 3 ticks after the key's release, nothing of the alphabet down at the end, finished within 2x(steps+delays)+100 ticks. Non-trivial = a scenario whose macro produced output; distinct = (family, variant, body shape, hold/tap/typing or cancel index or concurrency and outcome).".into()
     }
     fn assumptions(&self) -> Vec<String> {
         vec![
@@ -1289,6 +1494,14 @@ impl Check for C08Check {
             ("fifth_started_while_4_running", 1_000 * s),
             ("bodies_with_custom_item", 1_500 * s),
             ("typed_meanwhile", 5_000 * s),
+            ("delayed_full", 1_500 * s),
+            ("delayed_trigger_OnRelease", 250 * s),
+            ("delayed_trigger_FakeKeyTap", 250 * s),
+            ("delayed_trigger_TapHoldTimeout", 250 * s),
+            ("delayed_trigger_TapDanceTimeout", 250 * s),
+            ("delayed_after_cut-by-release", 300 * s),
+            ("delayed_after_cut-by-press", 150 * s),
+            ("delayed_after_completed", 150 * s),
         ]
     }
 }
